@@ -15,6 +15,10 @@
    Rows: the database is table a(id, x, y) with NRows rows per file (main, s1, s2: ids offset by 0/10/20) and table b(a_id, z);
    Ids(s, v, m) is the sorted sequence of first-column ids the statement returns under schema map m. *)
 EXTENDS Integers, Sequences, FiniteSets, TLC, Json
+\* NAMED DEVIATION (C17): sql/lambdas.py turns a closure variable holding None into a bound parameter before the comparison operator
+\* sees it, so `lambda: t.c.x == v` with v = None renders `x = ?` with NULL bound (no row ever matches) where the statement built
+\* directly from the value renders `x IS NULL`.  FALSE = what the property says (the ideal), TRUE = what the code does.
+CONSTANT LamNoneBind
 
 \* ------------------------------------------------------------------ data
 NRows == 5
@@ -38,7 +42,7 @@ Eff(schema, m) == CASE schema = "main" -> (IF HasNoneKey(m) THEN "s1" ELSE "main
                     [] OTHER -> schema
 
 \* ------------------------------------------------------------------ grammar
-Kinds == {"sel", "orm", "ins", "upd", "del", "lam"}
+Kinds == {"sel", "orm", "ins", "upd", "del", "lam", "ddl"}
 Froms == {"a", "join", "outer", "s1", "xjoin"}
 Crits == {"none", "eq", "in", "eqand", "orin"}
 LamKinds == {"lscalar", "llist", "lcol", "ltab", "lmulti", "lwhere", "lcrit"}
@@ -53,11 +57,13 @@ OrmShapes == [k : {"orm"}, f : {"a", "join", "outer"}, c : Crits, w : {"none", "
 InsShapes == [k : {"ins"}, f : {"a", "s1"}, c : {"none"}, w : {"none"}, d : {"none"}, o : {"none", "ret"}]
 UpdDelShapes == [k : {"upd", "del"}, f : {"a", "s1"}, c : Crits, w : {"none"}, d : {"none"}, o : {"none", "ret"}]
 LamShapes == [k : {"lam"}, f : {"a"}, c : LamKinds, w : {"none"}, d : {"none"}, o : {"none"}]
-Shapes == SelShapes \cup OrmShapes \cup InsShapes \cup UpdDelShapes \cup LamShapes
+\* CREATE TABLE d (...) with the table declared without schema / in s1  (DDL has no cache key; executed under a schema map for C16)
+DdlShapes == [k : {"ddl"}, f : {"a", "s1"}, c : {"none"}, w : {"none"}, d : {"none"}, o : {"none"}]
+Shapes == SelShapes \cup OrmShapes \cup InsShapes \cup UpdDelShapes \cup LamShapes \cup DdlShapes
 WF(s) == s \in Shapes
 Name(s) == s.k \o "|" \o s.f \o "|" \o s.c \o "|" \o s.w \o "|" \o s.d \o "|" \o s.o
 \* shapes that may be executed under a schema map: Core statements over a / s1.a only (b exists only unqualified)
-SchemaCapable(s) == s.k \in {"sel", "ins", "upd", "del"} /\ s.f \in {"a", "s1", "xjoin"} /\ s.w # "exists"
+SchemaCapable(s) == s.k \in {"sel", "ins", "upd", "del", "ddl"} /\ s.f \in {"a", "s1", "xjoin"} /\ s.w # "exists"
 \* two different tables must not be translated onto the same one (the "same construct with translated names" would not exist)
 MapOK(s, m) == m = "none" \/ (SchemaCapable(s) /\ (s.f = "xjoin" => Eff("main", m) # Eff("s1", m)))
 UsesNoneSchema(s) == s.f # "s1"          \* the statement mentions a table declared without schema
@@ -79,7 +85,8 @@ Card(S) == Cardinality(S)
 UsesEq(s) == s.c \in {"eq", "eqand", "orin", "lscalar", "lcol", "ltab", "lmulti", "lcrit"}
 UsesList(s) == s.c \in {"in", "orin", "llist", "lwhere"}
 \* `col == None` renders IS NULL: a different statement structure, hence a different cache key (insert VALUES keep a bind)
-Struct(s, v) == IF s.k # "ins" /\ UsesEq(s) /\ v.a = 0 THEN "null" ELSE "val"
+Dev(s, v) == LamNoneBind /\ s.k = "lam" /\ UsesEq(s) /\ v.a = 0          \* the named deviation applies to this execution
+Struct(s, v) == IF s.k # "ins" /\ UsesEq(s) /\ v.a = 0 /\ ~Dev(s, v) THEN "null" ELSE "val"
 InLen(s, v) == IF UsesList(s) THEN Len(v.l) ELSE 0 - 1
 \* closure values of a lambda that are not literals take part in the cache key
 LamKey(s, v) == CASE s.c \in {"lcol", "lmulti"} -> v.col [] s.c = "ltab" -> v.tab [] OTHER -> ""
@@ -87,7 +94,8 @@ LamKey(s, v) == CASE s.c \in {"lcol", "lmulti"} -> v.col [] s.c = "ltab" -> v.ta
 \* ------------------------------------------------------------------ rows
 ColVal(col, i) == IF col = "x" THEN X[i] ELSE Y[i]
 Sat(s, v, i) ==
-   CASE s.c = "none" -> TRUE
+   CASE Dev(s, v) -> FALSE                      \* x = NULL is never true
+     [] s.c = "none" -> TRUE
      [] s.c \in {"eq", "lscalar", "ltab", "lcrit"} -> X[i] = v.a
      [] s.c \in {"in", "llist"} -> X[i] # 0 /\ X[i] \in Range(v.l)
      [] s.c = "eqand" -> X[i] = v.a /\ Y[i] = v.b
@@ -113,6 +121,7 @@ Matching(s, v) == Bag([i \in 1..NRows |-> IF Sat(s, v, i) THEN 1 ELSE 0], 1)
 Ids(s, v, m) ==
    LET off == Off(Eff(RowSchema(s, v), m)) IN
    CASE s.k \in {"sel", "orm", "lam"} -> Shift(SelIds(s, v), off)
+     [] s.k = "ddl" -> <<off>>                                     \* observable of CREATE TABLE: the file in which table d exists afterwards
      [] s.k = "ins" -> IF s.o = "ret" THEN <<NRows + 1 + off>> ELSE <<>>
      [] OTHER -> IF s.o = "ret" THEN Shift(Matching(s, v), off) ELSE <<>>
 \* second column of the cross-schema join: ids of the partner rows (from the s1-declared table)
@@ -128,8 +137,10 @@ RowCount(s, v) == CASE s.k = "ins" /\ s.o = "none" -> 1
                     [] OTHER -> 0 - 1
 
 \* ------------------------------------------------------------------ bound parameters, declarative: order of appearance in the SQL
+NullBind == 0 - 1                                       \* a bound NULL
 EqB(v) == IF v.a = 0 THEN <<>> ELSE <<v.a>>
-CritB(s, v) == CASE s.c = "none" -> <<>> [] s.c = "eq" -> EqB(v) [] s.c = "in" -> v.l
+CritB(s, v) == CASE Dev(s, v) -> IF s.c = "lmulti" THEN <<NullBind, v.b>> ELSE <<NullBind>>
+                 [] s.c = "none" -> <<>> [] s.c = "eq" -> EqB(v) [] s.c = "in" -> v.l
                  [] s.c = "eqand" -> EqB(v) \o <<v.b>> [] s.c = "orin" -> EqB(v) \o v.l
                  [] s.c \in {"lscalar", "ltab", "lcol", "lcrit"} -> EqB(v)
                  [] s.c = "llist" -> v.l
@@ -138,6 +149,7 @@ CritB(s, v) == CASE s.c = "none" -> <<>> [] s.c = "eq" -> EqB(v) [] s.c = "in" -
 LimitB(s, v) == IF s.d = "limit" THEN <<v.n, 0>> ELSE <<>>       \* SQLite renders LIMIT ? OFFSET ? with a generated 0
 Binds(s, v) ==
    CASE s.k = "ins" -> <<v.a, v.b>>                               \* VALUES (?, ?): None stays a bound NULL (0)
+     [] s.k = "ddl" -> <<>>
      [] s.k = "upd" -> <<v.b>> \o CritB(s, v)                     \* SET y=? WHERE ...
      [] s.k = "del" -> CritB(s, v)
      [] OTHER -> CritB(s, v) \o (IF s.w = "exists" THEN <<v.b>> ELSE <<>>) \o (IF s.w = "union" THEN <<v.b>> ELSE <<>>) \o LimitB(s, v)
@@ -145,7 +157,8 @@ Binds(s, v) ==
 \* ------------------------------------------------------------------ bound parameters, mechanism
 \* parameters of the statement in cache-key traversal order; each element is a sequence (an expanding IN list is ONE parameter)
 EqX(v) == IF v.a = 0 THEN <<>> ELSE << <<v.a>> >>
-CritX(s, v) == CASE s.c = "none" -> <<>> [] s.c = "eq" -> EqX(v) [] s.c = "in" -> << v.l >>
+CritX(s, v) == CASE Dev(s, v) -> IF s.c = "lmulti" THEN << <<NullBind>>, <<v.b>> >> ELSE << <<NullBind>> >>
+                 [] s.c = "none" -> <<>> [] s.c = "eq" -> EqX(v) [] s.c = "in" -> << v.l >>
                  [] s.c = "eqand" -> EqX(v) \o << <<v.b>> >> [] s.c = "orin" -> EqX(v) \o << v.l >>
                  [] s.c \in {"lscalar", "ltab", "lcol", "lcrit"} -> EqX(v)
                  [] s.c = "llist" -> << v.l >>
@@ -153,6 +166,7 @@ CritX(s, v) == CASE s.c = "none" -> <<>> [] s.c = "eq" -> EqX(v) [] s.c = "in" -
                  [] s.c = "lwhere" -> << <<v.b>>, v.l >>
 Extract(s, v) ==
    CASE s.k = "ins" -> << <<v.a>>, <<v.b>> >>
+     [] s.k = "ddl" -> <<>>
      [] s.k = "upd" -> CritX(s, v) \o << <<v.b>> >>                \* Update._traverse_internals: _where_criteria before _values
      [] s.k = "del" -> CritX(s, v)
      [] OTHER -> CritX(s, v) \o (IF s.w \in {"exists", "union"} THEN << <<v.b>> >> ELSE <<>>) \o (IF s.d = "limit" THEN << <<v.n>> >> ELSE <<>>)
@@ -163,6 +177,7 @@ NCrit(s, st) == CASE s.c = "none" -> 0 [] s.c \in {"eqand", "orin", "lmulti"} ->
                   [] s.c \in {"in", "llist"} -> 1 [] OTHER -> NEq(s, st)
 Order(s, st) ==
    CASE s.k = "ins" -> <<1, 2>>
+     [] s.k = "ddl" -> <<>>
      [] s.k = "upd" -> <<NCrit(s, st) + 1>> \o [i \in 1..NCrit(s, st) |-> i]
      [] s.k = "del" -> [i \in 1..NCrit(s, st) |-> i]
      [] OTHER -> LET n == NCrit(s, st) + (IF s.w \in {"exists", "union"} THEN 1 ELSE 0) + (IF s.d = "limit" THEN 1 ELSE 0)
@@ -180,6 +195,6 @@ SqlClass(s, v, m) == [sh |-> Name(s), st |-> Struct(s, v), lk |-> LamKey(s, v), 
                       e0 |-> IF UsesNoneSchema(s) /\ ~(s.c = "ltab" /\ v.tab # "a") THEN Eff("main", m) ELSE "-",
                       e1 |-> IF s.f \in {"s1", "xjoin"} THEN Eff("s1", m) ELSE IF s.c = "ltab" /\ v.tab # "a" THEN v.tab ELSE "-"]
 F(s, v, m) == [sql |-> SqlClass(s, v, m), binds |-> Binds(s, v), ids |-> Ids(s, v, m), ids2 |-> Ids2(s, v, m), c2 |-> HasIds2(s), rc |-> RowCount(s, v),
-               sec |-> Secondary(s, v)]
+               sec |-> Secondary(s, v), dev |-> Dev(s, v)]
 
 =============================================================================
